@@ -51,9 +51,14 @@ MODELLED = ('image._standardize_frame_index, get_raw_frame (native byte range in
             'native read_frame_raw on the bytes of the file (_read_metadata header_offset 8 / 12, trailing elements); '
             'get_stored_frames and get_frames (transforms off: same case split incl. the number_of_frames == 1 test of the '
             'D108 fix) for requests in ANY order / with repeats / of any length, on the in-memory and the lazily read '
-            'image, cold and warm (batch_order, and as read ops of history / lazy_history)')
+            'image, cold and warm (batch_order, and as read ops of history / lazy_history); the lazily read image under '
+            'GEOMETRY edits (Rows / Columns / NumberOfFrames / BitsAllocated; state after the D118 fix: read_frame_raw '
+            'computes the native frame offset from the current metadata): gimg / read_frame_raw_cur with nothing cached, '
+            'limg with pixel_array among the reads; frame_numbers=None of get_stored_frames / get_frames '
+            '(default_request); the lazily read ENCAPSULATED image after NumberOfFrames was edited (the table of the '
+            'moment the file was opened + the current NumberOfFrames: lazy_raw_enc_bytes_edited)')
 STRATA = ['native', 'index', 'reader_index', 'reader_neg', 'raw422', 'encaps', 'encaps_bad', 'codec', 'codec1', 'fixture',
-          'planar', 'history', 'lazy_history', 'batch_order']
+          'planar', 'history', 'lazy_history', 'batch_order', 'lazy_geometry']
 NOT_EXECUTED = ['JPEG 2000 fixtures (no openjpeg codec installed, none decodable here)',
                 'big-endian transfer syntaxes (rejected by _check_little_endian)']
 RULE = ('native: BitsAllocated 1/8/16/32 x signed x 1|3 samples x 1..6 frames, rows/cols 1..7 (every residue of '
@@ -87,7 +92,19 @@ RULE = ('native: BitsAllocated 1/8/16/32 x signed x 1|3 samples x 1..6 frames, r
         'get_stored_frames and get_frames(dtype=int64, all transforms off); the images live on from request to '
         'request; single-frame colour images with a warm cache included (D108). The same request classes are the '
         'batch / frames reads of history and lazy_history, and every codec / fixture case is also read by a '
-        'shuffled + repeated batch first on a fresh image and by get_frames cold and warm (oracle only)')
+        'shuffled + repeated batch first on a fresh image and by get_frames cold and warm (oracle only). '
+        'lazy_geometry: lazily read native image (mono / bit-packed / colour, 1..4 frames, bytes / path / file object / '
+        'BytesIO) x geometry edits that leave a valid image for the same PixelData - swap Rows<->Columns, refactor '
+        'Rows x Columns, fewer frames, BitsAllocated 8/16/32 with Columns rescaled, smaller frames (shrink), smaller '
+        'frames and MORE frames than the file was opened with (more), larger frames and fewer of them (grow), back to '
+        'the original; the classes shrink / more / grow are drawn until the offset table computed at open time would '
+        'misplace a frame (D118) - each edit followed by every frame one at a time, an index read, shuffled batches '
+        'through get_stored_frames and get_frames, frame_numbers=None, raw frame, decode of a raw frame, a number '
+        'outside the image; 1/3 of the cases with pixel_array before and between the edits (cache of the lazily read '
+        'image); model-compared AND judged by the numpy decode of the CURRENT description. encaps: additionally the '
+        'lazily read image with NumberOfFrames edited to 1 .. n + 1 (lowered / same / raised), every index 0 .. max + 1; '
+        'lazy_geometry class overflow: Rows / Columns / NumberOfFrames edited BEYOND what PixelData holds - frames inside '
+        'the data must be answered with their values, the others refused (error class compared with the model)')
 
 _TMP = None
 
@@ -163,6 +180,17 @@ def _rand_payload(rng, ln, mark):
         elif bytes(b[0:2]) in (b'\xff\xd8', b'\xff\x4f'):
             b[0] = 0x12
     return bytes(b)
+
+
+def _encaps_n_edit(c):
+    """NumberOfFrames the lazily read encapsulated image is edited to (1 .. n + 1), a function of the case (no
+    random draw: the streams of the earlier strata keep their cases)."""
+    first = c['frames'][0][0] if c['frames'] and c['frames'][0] else ''
+    return 1 + (len(first) // 2 + sum(len(fr) for fr in c['frames']) + c['n']) % (c['n'] + 1)
+
+
+def _encaps_idx_edit(c):
+    return list(range(0, max(c['n'], _encaps_n_edit(c)) + 2))
 
 
 def _encaps_case(rng, bad):
@@ -394,6 +422,155 @@ def _history_case(rng, lazy=False):
     return f
 
 
+GEOMETRY_EDITS = ['swap', 'refactor', 'fewer', 'rebits', 'shrink', 'more', 'grow', 'back']
+# 'overflow' (drawn separately): the description is edited BEYOND what the file holds - the last frame(s) must be refused
+
+
+def _native_offset(h, spp, i):
+    """Byte offset of frame i of a native image described by h (what the reader's table should say)."""
+    npx = h['rows'] * h['cols'] * spp
+    return (i * npx) // 8 if h['bits'] == 1 else i * (npx * h['bits'] // 8)
+
+
+def _geometry_misfit(c):
+    """True iff some read of the history happens while the offset table the reader computed when the file
+    was opened does not say where the frames of the CURRENT description start (finding D118)."""
+    spp = c['spp']
+    first = {k: c[k] for k in HEADER_KEYS}
+    cur, bad = dict(first), False
+    for o in c['ops']:
+        if o[0] == 'header':
+            cur = dict(cur, **o[1])
+            bad = cur['n'] > first['n'] or any(_native_offset(cur, spp, i) != _native_offset(first, spp, i)
+                                               for i in range(cur['n']))
+        elif bad:
+            return True
+    return False
+
+
+def _geometry_case(rng, cls=None, warm=False):
+    """(warm: pixel_array is called too, before and after the edits: the cache of the lazily read image.)
+    Lazily read native image + edits of its GEOMETRY (Rows / Columns / NumberOfFrames / BitsAllocated) that
+    leave a valid image for the same PixelData, each followed by reads with nothing cached (pixel_array is never
+    called): every frame one at a time, a shuffled batch, a raw frame, decode of a raw frame, a bad number."""
+    for _ in range(500):
+        if rng.random() < 0.25:
+            f = _planar_fields(rng, small=True)
+            f['n'] = rng.choice([2, 3])
+        else:
+            f = _native_fields(rng)
+            f['rows'], f['cols'] = rng.randint(1, 5), rng.randint(1, 5)
+            f['n'] = rng.choice([1, 2, 2, 3, 3, 4])
+        f.setdefault('planar', 0)
+        f['single_iod'] = False
+        f['src'] = rng.choice(['bytes', 'path', 'fileobj', 'bytesio'])
+        f['ts'] = rng.choice(['explicit', 'implicit'])
+        spp, bits = f['spp'], f['bits']
+        ln = _pd_len(bits, f['rows'] * f['cols'] * spp, f['n'])
+        f['pd'] = bytes(rng.randrange(256) for _ in range(ln)).hex()
+        first = {k: f[k] for k in HEADER_KEYS}
+        cur = dict(first)
+
+        def fits(h):
+            return h['n'] >= 1 and h['n'] * h['rows'] * h['cols'] * spp * h['bits'] <= 8 * ln
+
+        def most(h):
+            return (8 * ln) // (h['rows'] * h['cols'] * spp * h['bits'])
+
+        def edit(kind):
+            h = dict(cur)
+            if kind == 'swap' and h['rows'] != h['cols']:
+                h['rows'], h['cols'] = h['cols'], h['rows']
+            elif kind == 'refactor':
+                rc = h['rows'] * h['cols']
+                opts = [(r, rc // r) for r in range(1, rc + 1) if rc % r == 0 and r != h['rows']]
+                if not opts:
+                    return None
+                h['rows'], h['cols'] = rng.choice(opts)
+            elif kind == 'fewer' and h['n'] > 1:
+                h['n'] = rng.randint(1, h['n'] - 1)
+            elif kind == 'rebits' and h['bits'] >= 8:
+                b2 = rng.choice([b for b in (8, 16, 32) if b != h['bits']])
+                if (h['cols'] * h['bits']) % b2:
+                    return None
+                h['cols'], h['bits'] = h['cols'] * h['bits'] // b2, b2
+                h['bs'] = b2 if rng.random() < 0.6 else rng.randint(1, b2)
+            elif kind == 'shrink':
+                key = rng.choice(['rows', 'cols'])
+                if h[key] < 2:
+                    return None
+                h[key] = rng.randint(1, h[key] - 1)
+            elif kind == 'more':
+                key = rng.choice(['rows', 'cols'])
+                if h[key] < 2:
+                    return None
+                h[key] = rng.randint(1, h[key] - 1)
+                if min(most(h), 8) <= h['n']:
+                    return None
+                h['n'] = rng.randint(h['n'] + 1, min(most(h), 8))
+            elif kind == 'grow' and h['n'] > 1:
+                key = rng.choice(['rows', 'cols'])
+                h[key] += rng.randint(1, 2)
+                if most(h) < 1:
+                    return None
+                h['n'] = rng.randint(1, most(h)) if rng.random() < 0.5 else most(h)
+            elif kind == 'back':
+                h = dict(first)
+            elif kind == 'overflow':
+                if rng.random() < 0.5:
+                    h[rng.choice(['rows', 'cols'])] += rng.randint(1, 2)
+                else:
+                    h['n'] = min(most(h) + rng.randint(1, 2), 8)
+                return h if (h != cur and not fits(h)) else None
+            else:
+                return None
+            if rng.random() < 0.2 and h['bits'] > 1:
+                h['signed'] = 1 - h['signed']
+            return h if (h != cur and fits(h)) else None
+
+        def reads():
+            n = cur['n']
+            nums = list(range(1, n + 1))
+            rng.shuffle(nums)
+            out = [['one', k, False] for k in nums[:4]]
+            out.append(['one', rng.randrange(n), True])
+            req = _request(rng, n, False, rng.choice(HARD_ORDERS + ['descending']), maxlen=6)
+            out.append(['batch', req, False])
+            k = rng.randint(1, n)
+            out += [['raw', k, False], ['decraw', n, False], ['one', rng.choice([0, n + 1, -1]), False]]
+            if rng.random() < 0.5:
+                out.append([rng.choice(['batch', 'frames']), None, rng.random() < 0.5])
+            out.append(['frames', _request(rng, n, True, rng.choice(HARD_ORDERS), maxlen=5), True])
+            if warm:
+                out += [['whole']] * rng.choice([1, 2])
+            rng.shuffle(out)
+            return out
+
+        kinds = [cls or rng.choice(GEOMETRY_EDITS[:-1])]
+        if rng.random() < 0.5:
+            kinds.append(rng.choice(GEOMETRY_EDITS))
+        ops = [['one', rng.randint(1, cur['n']), False]] if rng.random() < 0.5 else []
+        if warm and rng.random() < 0.8:
+            ops.append(['whole'])
+        ok = True
+        for kd in kinds:
+            h = edit(kd)
+            if h is None:
+                ok = kd is not kinds[0]
+                break
+            cur = h
+            ops.append(['header', dict(h)])
+            ops.extend(reads())
+        if ok and any(o[0] == 'header' for o in ops):
+            f['ops'] = ops
+            f['edit'] = kinds[0]
+            f['warm'] = bool(warm)
+            if cls in ('shrink', 'more', 'grow') and not _geometry_misfit(f):
+                continue        # the class is there to move the frames away from where the old table says
+            return f
+    raise AssertionError('harness: no geometry case found')
+
+
 def gen_cases(rng, tier):
     k = {'quick': 1, 'thorough': 12, 'search': 5}[tier]
     cases = []
@@ -537,6 +714,16 @@ def gen_cases(rng, tier):
         cases.append(dict(_batch_order_case(rng, n=1, colour=False), kind='batch_order'))
     for _ in range(5 * k):
         cases.append(dict(_batch_order_case(rng, n=2), kind='batch_order'))
+    # lazily read image whose geometry is edited: the reader's offset table (appended last)
+    for cls in GEOMETRY_EDITS[:-1]:
+        for _ in range(4 * k):
+            cases.append(dict(_geometry_case(rng, cls), kind='lazy_geometry'))
+        for _ in range(2 * k):
+            cases.append(dict(_geometry_case(rng, cls, warm=True), kind='lazy_geometry'))
+    for _ in range(8 * k):
+        cases.append(dict(_geometry_case(rng, warm=rng.random() < 0.4), kind='lazy_geometry'))
+    for _ in range(6 * k):
+        cases.append(dict(_geometry_case(rng, 'overflow'), kind='lazy_geometry'))
     return cases
 
 
@@ -977,7 +1164,7 @@ def run_impl(c):
     k = c['kind']
     if k == 'history':
         return _run_history(c)
-    if k == 'lazy_history':
+    if k in ('lazy_history', 'lazy_geometry'):
         return _run_history(c, lazy=True)
     if k in ('native', 'planar'):
         ds = _native_ds(c)
@@ -1074,6 +1261,8 @@ def run_impl(c):
         ds = _native_ds(c)
         if c.get('trail'):
             ds.DataSetTrailingPadding = bytes.fromhex(c['trail'])
+        elif 'DataSetTrailingPadding' in ds:
+            del ds.DataSetTrailingPadding       # (the CT fixture behind single_iod carries one of its own)
         data = _file_bytes(ds)
         if not data.endswith(_file_tail(c)):
             raise AssertionError('harness: the file does not end with the expected Pixel Data element bytes')
@@ -1109,10 +1298,18 @@ def run_impl(c):
             with _Quiet():
                 im = hd_imread(data, lazy_frame_retrieval=True)
                 return [_catch(lambda: list(im.get_raw_frame(f, as_index=c.get('img_ai', True)))) for f in c['idx']]
+        def go_image_edited():
+            # NumberOfFrames edited on the lazily read image: the reader keeps the table it built when the file was opened
+            with _Quiet():
+                im = hd_imread(data, lazy_frame_retrieval=True)
+                im.NumberOfFrames = _encaps_n_edit(c)
+                return [_catch(lambda: list(im.get_raw_frame(f, as_index=c.get('img_ai', True)))) for f in _encaps_idx_edit(c)]
         from highdicom import imread as hd_imread
         out = [_catch(go)]
         if k != 'reader_neg':
             out.append(_catch(go_image))
+        if k == 'encaps':
+            out.append(_catch(go_image_edited))
         return out
     if k in ('codec', 'codec1'):
         c = dict(c)
@@ -1274,6 +1471,36 @@ def coq_term(c):
                 ops.append(f"({'LHeader' if lz else 'OHeader'} {_cfmt(c, cur)})")
         return (f"({'run_lazy_history' if lz else 'run_history'} {_cfmt(c, c)} {zl(bytes.fromhex(c['pd']))} "
                 f"[{'; '.join(ops)}])")
+    if k == 'lazy_geometry':
+        def gc(h):
+            return (f"(CFmt (Fmt {h['bits']} {h['bs']} {_b(h['signed'])} {h['rows'] * h['cols'] * c['spp']} {h['n']}) "
+                    f"{c['spp']} {_b(h.get('planar', 0))} {h['rows']})")
+        cur = {kk: c.get(kk, 0) for kk in HEADER_KEYS}
+        first = gc(cur)
+        warm = c.get('warm')        # with pixel_array among the reads: the model with the cache (limg)
+        P = 'L' if warm else 'G'
+        ops = []
+        for o in c['ops']:
+            t, n = o[0], cur['n']
+            if t == 'whole':
+                ops.append('LWhole')
+            elif t in ('batch', 'frames'):
+                nm = 'Batch' if t == 'batch' else 'Frames'
+                if o[1] is None and not warm:
+                    ops.append(f"(G{nm}All {_b(o[2])})")
+                elif o[1] is None:
+                    ops.append(f"(L{nm} (default_request {n} {_b(o[2])}) {_b(o[2])})")
+                else:
+                    ops.append(f"({P}{nm} {zl(o[1])} {_b(o[2])})")
+            elif t in ('one', 'raw', 'decraw'):
+                ops.append(f"({P}{ {'one': 'One', 'raw': 'Raw', 'decraw': 'DecodeRaw'}[t]} {zlit(o[1])} {_b(o[2])})")
+            elif t == 'header':
+                cur = dict(cur, **o[1])
+                ops.append(f"({P}Header {gc(cur)})")
+            else:
+                raise ValueError(t)
+        return (f"({'run_lazy_history' if warm else 'run_lazy_geometry'} {first} {zl(bytes.fromhex(c['pd']))} "
+                f"[{'; '.join(ops)}])")
     if k == 'batch_order':
         reqs = '; '.join(f"({zl(fs)}, {_b(ai)})" for fs, ai, _ in c['reqs'])
         return f"(run_batch_order {_cfmt(c, c)} {zl(bytes.fromhex(c['pd']))} [{reqs}])"
@@ -1297,8 +1524,11 @@ def coq_term(c):
         t = f"run_encaps_bytes {e} {zl(bot)} {pls} {c['n']} {zl(c['idx'])}"
         if k == 'reader_neg':
             return f'(VL [{t}])'
-        return (f"(VL [{t}; run_encaps_image {e} {zl(bot)} {pls} {c['n']} {zl(c['idx'])} "
-                f"{_b(c.get('img_ai', True))}])")
+        t2 = f"run_encaps_image {e} {zl(bot)} {pls} {c['n']} {zl(c['idx'])} {_b(c.get('img_ai', True))}"
+        if k == 'encaps':
+            return (f"(VL [{t}; {t2}; run_encaps_image_edited {e} {zl(bot)} {pls} {c['n']} {_encaps_n_edit(c)} "
+                    f"{zl(_encaps_idx_edit(c))} {_b(c.get('img_ai', True))}])")
+        return f"(VL [{t}; {t2}])"
     return None
 
 
@@ -1334,7 +1564,7 @@ def _expect_index(c):
 def oracle(c, out):
     import numpy as np
     k = c['kind']
-    if k in ('history', 'lazy_history'):
+    if k in ('history', 'lazy_history', 'lazy_geometry'):
         return _oracle_history(c, out)
     if k in ('native', 'planar'):
         dtype, one, lz_ok, cached_ok, whole_ok, raws, raws_ok = out
@@ -1447,7 +1677,9 @@ def oracle(c, out):
     if k == 'encaps':
         # well-formed stream with a usable table: frame i = its own fragments (bytes, both routes)
         frags = [bytes.fromhex(x) for fr in c['frames'] for x in fr]
-        for route, o_all in zip(('ImageFileReader.read_frame_raw', 'lazy Image.get_raw_frame'), out):
+        n2 = _encaps_n_edit(c)
+        for route, o_all in zip(('ImageFileReader.read_frame_raw', 'lazy Image.get_raw_frame',
+                                 f'edited lazy Image (NumberOfFrames := {n2}).get_raw_frame'), out):
             if isinstance(o_all, Err):
                 m = _encaps_expect_open_failure(c, o_all)
                 if m:
@@ -1455,10 +1687,16 @@ def oracle(c, out):
                 continue
             if _encaps_open_must_fail(c):
                 return f'{route}: opened a stream whose frames cannot be told apart'
-            img = route.startswith('lazy')
-            for f, o in zip(c['idx'], o_all):
+            img = not route.startswith('ImageFileReader')
+            edited = route.startswith('edited')
+            for f, o in zip(_encaps_idx_edit(c) if edited else c['idx'], o_all):
                 i = f if (not img or c.get('img_ai', True)) else f - 1
-                if 0 <= i < c['n']:
+                if edited and c['n'] <= i < n2:
+                    # inside the edited image, but the stream has no such frame: any refusal, never data
+                    if not isinstance(o, Err):
+                        return f'{route}({f}) returned data for a frame the stream does not have'
+                    continue
+                if 0 <= i < (min(c['n'], n2) if edited else c['n']):
                     want = b''.join(bytes.fromhex(x) for x in c['frames'][i])
                     if isinstance(o, Err) or bytes(o) != want:
                         got = o if isinstance(o, Err) else _locate(bytes(o), frags)
@@ -1513,11 +1751,11 @@ def _oracle_history(c, out):
     PixelData bytes under the current header (numpy only), current dtype and frame shape."""
     cur = dict(c)
     spp = c['spp']
-    npx = c['rows'] * c['cols'] * spp
     hist = []
     for j, (o, got) in enumerate(zip(c['ops'], out)):
         t = o[0]
         n, bits = cur['n'], cur['bits']
+        npx = cur['rows'] * cur['cols'] * spp       # (lazy_geometry: the frame size is edited too)
         hist.append(t if t != 'header' else 'header' + str({k: v for k, v in o[1].items() if cur.get(k) != v}))
         where = f'op {j} {t}{o[1:] if t not in ("assign", "inplace", "header") else ""} after [{", ".join(hist[:-1])}]'
         if t in ('assign', 'inplace'):
@@ -1530,7 +1768,9 @@ def _oracle_history(c, out):
             if got is not None:
                 return f'{where}: edit failed: {got}'
             continue
-        ref = _np_reference(cur)
+        # (lazy_geometry 'overflow': the edited description may claim more than PixelData holds)
+        n_in = min(n, (8 * (len(cur['pd']) // 2)) // (npx * bits))
+        ref = _np_reference(dict(cur, n=n_in)) if n_in >= 1 else []
         want_dt = 'uint8' if bits == 1 else ('int' if cur['signed'] else 'uint') + str(bits)
         want_shape = [cur['rows'], cur['cols']] + ([3] if spp == 3 else [])
         if t == 'whole':
@@ -1548,6 +1788,12 @@ def _oracle_history(c, out):
             if not (isinstance(got, Err) and got.kind == 'IndexError'):
                 return f'{where}: frame outside the image, expected IndexError, got {str(got)[:60]}'
             continue
+        if t != 'raw' and any(i >= n_in for i in idx):
+            if not isinstance(got, Err):
+                return f'{where}: a frame that does not lie inside PixelData was answered'
+            continue
+        if isinstance(got, Err) and t == 'raw' and idx[0] >= n_in:
+            continue        # (raw bytes of a frame partly outside the data: clipped bytes or a refusal)
         if isinstance(got, Err):
             return f'{where}: raised {got.kind} on a valid request'
         if t == 'raw':
@@ -1594,7 +1840,7 @@ def nontrivial(c, out):
         return c['n'] > 1
     if k == 'batch_order':
         return any(len(fs) > 1 for fs, _, _ in c['reqs'])
-    if k in ('history', 'lazy_history'):
+    if k in ('history', 'lazy_history', 'lazy_geometry'):
         return any(o[0] in ('assign', 'inplace', 'header') for o in c['ops'])
     if k in ('index', 'reader_index', 'reader_neg'):
         return True
@@ -1607,6 +1853,15 @@ def nontrivial(c, out):
 
 def shrink(c):
     k = c['kind']
+    if k == 'lazy_geometry':
+        ops = c['ops']
+        for i in range(len(ops)):
+            if ops[i][0] != 'header':       # (a read with batch None depends on the current number of frames only)
+                yield dict(c, ops=ops[:i] + ops[i + 1:])
+        if c['src'] != 'bytes':
+            yield dict(c, src='bytes')
+        if c['ts'] != 'explicit':
+            yield dict(c, ts='explicit')
     if k in ('history', 'lazy_history'):
         ops = c['ops']
         for i in range(len(ops)):
@@ -1672,6 +1927,12 @@ def shrink(c):
 # D108 (get_frames recognised a single-frame image by the rank of the cached array: one colour frame + warm cache ->
 # ValueError) is fixed in /repo; 'batch_order' (n = 1 colour), the 'frames' reads of history / lazy_history and the
 # cached_frames route of every codec / fixture case keep it in every run (corpus/C05/batch_single_colour_frame_warm.json).
+# D118 (found by the 'lazy_geometry' stratum of this check, FIXED in /repo c4f8b14): ImageFileReader kept using the native
+# offset table it computed when the file was opened; after an edit of Rows / Columns / NumberOfFrames / BitsAllocated on
+# a lazily read image the frames were read from the OLD offsets (wrong pixels, or a bare IndexError for a frame the table
+# had no entry for).  read_frame_raw now computes the offset from the current metadata; the model (gimg /
+# read_frame_raw_cur) mirrors that; corpus/C05/lazy_geometry_stale_table.json keeps the witness in every run and
+# _geometry_case draws the classes 'shrink' / 'more' / 'grow' until the old table would misfit.
 # No open findings.
 FINDINGS = {}
 
